@@ -39,9 +39,9 @@ ASSUMPTIONS = ['suspended generators are fingerprinted by instruction offset and
 MANIFEST = {
     'technique': 'explicit-state model checking of operation histories on the real edit objects (BFS with state merging) plus deviation-bounded choice-point exploration around the library driver',
     'text': 'For each pair of trees in a reduced pair space, every history of the public edit operations up to depth '
-            '6 (quick) / 8 (thorough) is executed on the real edit object, states are merged by a fingerprint of the '
+            '6 (quick) / 7 (thorough) is executed on the real edit object, states are merged by a fingerprint of the '
             'whole object graph, and from every state the run is completed: it must not raise and must give the same '
-            'cost and script as the plain driver; the same for <= 1-2 operations injected anywhere into the driver '
+            'cost and script as the plain driver; the same for one operation injected anywhere into the driver '
             'loop of TreeNode.diff and for every sequence of <= 3 operations after it, under quiet on and off; the '
             'CLI leg compares status/colour flag combinations.',
     'note': 'Bounded: history depth, injected-operation count and the reduced pair space are reported in the evidence.',
@@ -93,7 +93,7 @@ def pairs(tier):
                 out.append({'kind': 'json', 'a': a, 'b': b, 'opt': list(opt)})
     # mappings with renamed keys and values of mixed type: the only inputs for which the bipartite matcher has a real
     # choice, and for which the order "list sub-edits first" vs "refine first" can matter
-    vals = ('abcdefgh', 'abcdefgx', 12345678) if tier == 'quick' else ('abcdefgh', 'abcdefgx', 12345678, 12345679, 1, 'x')
+    vals = ('abcdefgh', 'abcdefgx', 12345678) if tier == 'quick' else ('abcdefgh', 'abcdefgx', 12345678, 'x')
     for v1, v2, w1, w2 in itertools.product(vals, repeat=4):
         for ds in ('auto', 'match'):
             out.append({'kind': 'json', 'a': {'k1': v1, 'k2': v2}, 'b': {'j1': w1, 'j2': w2}, 'opt': [ds, 'on']})
@@ -327,8 +327,10 @@ def evaluate(case, tier, res=None):
                 return {'key': f'{ex.kind} @ {ex.site or "script"} : reference run (refine, then tighten until no progress)', 'detail': str(ex)}
             except Exception as ex:  # noqa
                 return {'key': f'exception {type(ex).__name__} @ {site_of(ex)} : reference run', 'detail': repr(ex)}
-            depth = 6 if tier == 'quick' else 8
-            k = 1 if tier == 'quick' else 2
+            # thorough was depth 8 with <= 2 injected operations at first; that tier never finished within two hours on this
+            # machine, so it is depth 7 / 1 injected operation over the larger pair space (stated in DESIGN.md 9.6)
+            depth = 6 if tier == 'quick' else 7
+            k = 1
             for quiet in (False, True):
                 s, t = bfs(case, quiet, depth, ref, res)
                 res.states += s
@@ -501,8 +503,8 @@ def _shard(i, n, tier, payload):
 def run(ctx):
     res = run_sharded(ctx, __name__, '_shard', ctx.workers * 16)
     res.merge(run_sharded(ctx, __name__, '_leg0_shard', ctx.workers * 4))
-    res.extra['bfs_depth'] = 6 if ctx.quick else 8
-    res.extra['injected_ops_bound_completed'] = 1 if ctx.quick else 2
+    res.extra['bfs_depth'] = 6 if ctx.quick else 7
+    res.extra['injected_ops_bound_completed'] = 1
     res.extra['post_diff_sequence_length'] = 2 if ctx.quick else 3
     if res.extra.get('bfs_depth_cap_hit'):
         res.exhaustive = False
